@@ -45,6 +45,11 @@ CmpF == {"eq", "ne", "le", "lt", "ge", "gt"}
 BoolForms(d) ==
     {B(f, p[1], p[2]) : f \in CmpF, p \in NL(IntT(d), IF Rich THEN IntT(d) ELSE IAt(d))}
     \cup {B(f, p[1], p[2]) : f \in CmpF, p \in NL(IAt(d), IntT(d))}
+    (* nested + and - in both associations, literals in every position: a - (b - c) is not (a - b) - c *)
+    \cup {B("eq", B(f, t[1], B(g, t[2], t[3])), v) : f \in {"add", "sub"}, g \in {"add", "sub"}, v \in IVars(d),
+              t \in {t \in IAt(d) \X IAt(d) \X IAt(d) : ~(IsLit(t[2]) /\ IsLit(t[3]))}}
+    \cup {B("eq", B(f, B(g, t[1], t[2]), t[3]), v) : f \in {"add", "sub"}, g \in {"add", "sub"}, v \in IVars(d),
+              t \in {t \in IAt(d) \X IAt(d) \X IAt(d) : ~(IsLit(t[1]) /\ IsLit(t[2]))}}
     \cup {U("not", x) : x \in BVars(d)}
     \cup {B(f, p[1], p[2]) : f \in {"and", "or", "xor", "iff", "bne"}, p \in NL(BAt(d), BAt(d))}
     \cup {B("then", x, y) : x \in BVars(d), y \in BAt(d)}
